@@ -829,7 +829,7 @@ class Consumer(object):
         if self._start_d is not None and not self._start_d.called:
             self._start_d.errback(failure)
 
-    def _handle_processor_error(self, failure):
+    def _handle_processor_error(self, failure, start_d=None):
         """Handle a failure in the processing of a block of messages
 
         This method is called when the processor func fails while processing
@@ -842,7 +842,9 @@ class Consumer(object):
         # notifying via the _start_d deferred, as it will be 'callback'd at the
         # end of stop()
         if not (self._stopping and failure.check(CancelledError)):
-            if self._start_d:  # Make sure we're not already stopped
+            # Make sure we're not already stopped (and not started again
+            # since: the failure belongs to the run that called the processor)
+            if self._start_d and (start_d is None or self._start_d is start_d):
                 self._start_d.errback(failure)
 
     def _handle_fetch_error(self, failure):
@@ -1015,6 +1017,9 @@ class Consumer(object):
 
         proc_block_begin = 0
         proc_block_end = proc_block_size
+        # The run these messages were fetched for: stop() ends it, even when
+        # it is followed by start() before we get to look again.
+        start_d = self._start_d
 
         while proc_block_begin < len(messages) and not self._shuttingdown:
             msgs_to_proc = messages[proc_block_begin:proc_block_end]
@@ -1027,17 +1032,17 @@ class Consumer(object):
             # Record the offset of the last processed message and check autocommit
             d.addCallback(self._update_processed_offset, last_offset)
             # Add an error handler
-            d.addErrback(self._handle_processor_error)
+            d.addErrback(self._handle_processor_error, start_d)
             # If we were stopped, cancel the processor deferred. Note, we have to
             # do this here, in addition to in stop() because the processor func
             # itself could have called stop(), and then when it returned, we re-set
             # self._processor_d to the return of maybeDeferred().
-            if self._stopping or self._start_d is None:
+            if self._stopping or start_d is None or self._start_d is not start_d:
                 d.cancel()
                 break
             else:
                 yield d
-                if self._stopping or self._start_d is None or self._start_d.called:
+                if self._stopping or self._start_d is not start_d or start_d.called:
                     # Stopping (stop() cancelled this block: it resumes us
                     # before it clears the start() deferred), stopped, or the
                     # processor failed and the failure was reported via the
